@@ -77,11 +77,18 @@ def _deltas_for(name, value, n_ind):
         [ext] * n_ind,
         [NAN] + [s] * (n_ind - 1),
         [s] * (n_ind - 1) + [INF],
+        # a null change (a proposal equal to the current value is still a proposal: it can be rejected, and what is
+        # restored then is ITS snapshot, not an older one) - for everybody, and for the first individual only
+        [0.0] * n_ind,
+        [0.0] + [s] * (n_ind - 1),
     ]
     return [rows(p) for p in pats]
 
 
-POP_DELTAS = [0.05, -2.0, 200.0, NAN]
+N_IND_PATTERNS = 9
+ZERO_IND = 7  # index of the all-zero pattern above
+POP_DELTAS = [0.05, -2.0, 200.0, NAN, 0.0]
+ZERO_POP = 4
 
 
 def universe(model_name, ids, quick=True):
@@ -133,7 +140,7 @@ def read_menus(u, v):
     return flt(between), flt(between_agg), flt(follow)
 
 
-def explore_protocol(u, v, acc, *, follow_depth, quick, case_base):
+def explore_protocol(u, v, acc, *, follow_depth, quick, case_base, fork_mode="REF"):
     """Phased BFS for proposals on variable v."""
     is_ind = v in u.ind_vars
     between, between_agg, follow = read_menus(u, v)
@@ -143,7 +150,7 @@ def explore_protocol(u, v, acc, *, follow_depth, quick, case_base):
     others = [w for w in (u.ind_vars + u.pop_vars) if w != v]
     masks = [[(m >> i) & 1 for i in range(u.n_ind)] for m in range(2 ** u.n_ind)]
 
-    st0, ref0 = statemc.initial(u, "REF")
+    st0, ref0 = statemc.initial(u, fork_mode)
     start = ("warm", 0, statemc.state_key(u, st0, ref0))
     seen = {start}
     frontier = deque([(st0, ref0, (), "warm", 0)])
@@ -180,7 +187,7 @@ def explore_protocol(u, v, acc, *, follow_depth, quick, case_base):
             ops += [(["read", x], "after", d + 1) for x in follow if st._values[x] is None]
             # next proposal on another variable (small / extreme), then its decision
             for w in others[: (2 if quick else len(others))]:
-                for k in (0, 2):
+                for k in (0, 2, ZERO_IND if w in u.ind_vars else ZERO_POP):
                     ops.append((["put", w, k, u.put_indices[w][0], True], "after2:" + w, d + 1))
         elif phase.startswith("after2:") and d <= follow_depth:
             w = phase.split(":")[1]
@@ -242,6 +249,8 @@ def _proposal_class(u, v, hist):
                 cls = "non-finite proposal"
             elif float(val.abs().max()) >= 100:
                 cls = "extreme proposal"
+            elif float(val.abs().max()) == 0:
+                cls = "null proposal"
             else:
                 cls = "finite proposal"
     return cls
@@ -495,6 +504,9 @@ def shards(tier, seed):
             if tier == "quick" and name not in QUICK_MODELS and v in pop:
                 continue  # quick: population variables on the representative kinds only
             out.append({"model": name, "ids": ["a", "b"], "driver": "protocol", "tier": tier, "variable": v})
+            # the documented other fork strategy (snapshot by deep copy): same protocol, same oracle
+            if tier == "thorough" or (name == QUICK_MODELS[0] and v in ind):
+                out.append({"model": name, "ids": ["a", "b"], "driver": "protocol", "tier": tier, "variable": v, "fork_mode": "COPY"})
         out.append({"model": name, "ids": ["a", "b"], "driver": "sampler", "tier": tier})
         out.append({"model": name, "ids": ["a", "b"] if tier == "quick" else ["a", "b", "c"], "driver": "dtype", "tier": tier})
     if tier == "thorough":
@@ -512,8 +524,9 @@ def run_shard(shard):
     u = universe(shard["model"], shard["ids"], quick=not thorough)
     base = {"model": shard["model"], "ids": shard["ids"]}
     if shard["driver"] == "protocol":
+        fm = shard.get("fork_mode", "REF")
         explore_protocol(u, shard["variable"], acc, follow_depth=3 if thorough else 1, quick=not thorough,
-                         case_base=dict(base, driver="protocol"))
+                         case_base=dict(base, driver="protocol", **({"fork_mode": fm} if fm != "REF" else {})), fork_mode=fm)
     elif shard["driver"] == "dtype":
         explore_dtype(u, acc, base)
     else:
@@ -537,7 +550,7 @@ def replay(case):
         explore_dtype(u, acc, {"model": case["model"], "ids": case["ids"]})
         return [{"signature": v["signature"], "message": v["message"]} for v in acc.violations.values()]
     hist = [op for op in case["history"]]
-    st, ref = statemc.initial(u, "REF")
+    st, ref = statemc.initial(u, case.get("fork_mode", "REF"))
     for i, op in enumerate(hist):
         try:
             if op[0] != "accept":
